@@ -31,6 +31,19 @@ use cfg::Cfg;
 #[global_allocator]
 static GLOBAL: alloc::Counting = alloc::Counting;
 
+fn panic_report(monitor: &str, msg: &str) -> vnet::Report {
+    let prop = monitor.to_uppercase();
+    let mut r = vnet::Report::new(&prop, monitor);
+    if msg.contains("[at /repo/") {
+        r.evaluations = 1;
+        r.distinct.insert(1);
+        r.violation(&format!("{prop}/panic-in-zlink-escaped-the-monitor"), msg.to_string(), serde_json::json!({"monitor": monitor}));
+    } else {
+        r.inconclusive.push(format!("the monitor itself panicked: {msg}"));
+    }
+    r
+}
+
 fn main() {
     let args: Vec<String> = std::env::args().collect();
     if args.len() < 2 {
@@ -44,7 +57,9 @@ fn main() {
     if name == "noop" {
         return;
     }
-    let report = match name {
+    // Monitors catch panics per case; this is the safety net for one that escapes: a panic raised inside
+    // /repo sources is a violation, one raised in the harness is a harness defect (inconclusive).
+    let report = match vnet::catch(|| match name {
         "c01" => c01::run(&cfg),
         "c07" => c07::run(&cfg),
         "c03" => c03::run(&cfg),
@@ -64,6 +79,9 @@ fn main() {
             eprintln!("unknown monitor {name}");
             std::process::exit(2);
         }
+    }) {
+        Ok(r) => r,
+        Err(msg) => panic_report(name, &msg),
     };
     let js = serde_json::to_string(&report.to_json()).unwrap();
     match &cfg.out {
